@@ -8,12 +8,18 @@ import (
 // val is the value type stored in the caches under test. Its identity (pointer) is what
 // is compared; Size() is constant for the life of the value.
 type val struct {
-	id int
-	sz int
+	id   int
+	sz   int
+	gate *sizeGate // kind gated-size only: the first Size() call parks until the harness opens the gate
 }
 
 // Size implements cache.Value.
-func (v *val) Size() int { return v.sz }
+func (v *val) Size() int {
+	if v.gate != nil {
+		v.gate.enter()
+	}
+	return v.sz
+}
 
 func (v *val) String() string {
 	if v == nil {
